@@ -26,6 +26,7 @@ var bodyPkgExact = map[string]bool{
 	"sort": true,
 	"github.com/prometheus/prometheus/pkg/labels":   true,
 	"github.com/prometheus/prometheus/model/labels": true,
+	"github.com/prometheus/prometheus/scrape":       true,
 }
 
 // overlayFor maps /verif/harness/<dir>/<file>.go to /repo/pkg/<dir>/zz_verif_<file>.go
